@@ -14,6 +14,7 @@ import Proofs.Row
 import Proofs.Order
 import Proofs.LineKeys
 import Proofs.LineValues
+import Proofs.ExportText
 
 namespace Jl.C03
 open Jl Jl.Value Jl.Template
@@ -208,5 +209,19 @@ theorem repeated_name_inside_undeclared_object :
     ∃ t, Json.unmarshal LineValues.Dup.out = (t, true) ∧
       LineSpec.lookupJV t [0x7A] = some LineValues.Dup.zNorm ∧ LineValues.Dup.zNorm ≠ LineValues.Dup.zRaw :=
   LineValues.Dup.raw_value_not_kept
+
+/-! ### The text route (`Exporter.Export` / `CreateRow` given JSON text): the same key order (`Proofs/ExportText`) -/
+
+open Jl.JsonQuote (sanitize) in
+/-- For text handed straight to `Export`: the member names of the emitted line are, in the oracle's words, the
+    template's visible columns in declaration order and then the text's other names in order of first appearance. -/
+theorem text_route_keys_expected (env : Env) (to : Tmpl) (line b : Bytes)
+    (h : exportLine env to (.str line) = .ok (b, none)) (hx : JsonPrint.FloatTextOK env.ext)
+    (hto : (OMap.keys to).Nodup) :
+    ∃ body t, b = body ++ [0x0A] ∧ Json.unmarshal body = (t, true) ∧
+      LineSpec.keysOf t =
+        (LineSpec.expectedKeys (LineLevel.leafCols to) (LineSpec.keysOf (Json.unmarshal line).1)).map
+          sanitize :=
+  ExportText.text_bytes_keys_expected env to line b h hx hto
 
 end Jl.C03
